@@ -442,7 +442,27 @@ def check_no_tail_regress(ctx, facts):
     ctx.floor("C09.1e", "provisional tail persists in read_next", n, 2)
 
 
-def check_position_translation(ctx, facts):
+def _idx_value_flags(facts, b, operand, depth=0):
+    """(derived from the persisted sealed index, found by a search over the chain, positional guess) for a value
+    that becomes the cursor's chain index; crate-local helpers are looked into (their returned value)."""
+    src, _, _ = origins(b, operand, follow_all_calls=True)
+    calls = {strip_generics(o.what) for o in src if o.kind == "call"}
+    from_pos = any(o.kind == "field" and isinstance(o.what, tuple) and str(o.what[0]).endswith("index::BlockPos") and o.what[1] == "cur_block_idx" for o in src)
+    searched = any(re.search(r"Iterator>?::(find|position|rposition|find_map|rfind)$", c_) for c_ in calls)
+    guess = any(re.search(r"::(checked_sub|saturating_sub|wrapping_sub|last|last_mut)$", c_) for c_ in calls)
+    if depth < 2:
+        for c_ in calls:
+            hb = next((bb_ for nn, bb_ in facts.bodies.items() if strip_generics(nn) == c_), None)
+            if hb is None or hb.j.get("derived") or hb is b:
+                continue
+            f2, s2, g2 = _idx_value_flags(facts, hb, {"k": "copy", "place": {"l": 0, "p": []}}, depth + 1)
+            searched = searched or s2
+            guess = guess or g2
+            from_pos = from_pos or f2
+    return from_pos, searched, guess
+
+
+def check_position_translation(ctx, facts, rid="C09.3"):
     n = 0
     for name in sorted(facts.bodies):
         b = facts.bodies[name]
@@ -469,11 +489,8 @@ def check_position_translation(ctx, facts):
             elif e[0] == "Add" and (show(strip_refs(e[1]), 8).endswith(".cur_block_idx") or show(strip_refs(e[1]), 8) in ("idx", "cur_idx")) and fmtfeat_const(e[2]) == 1:
                 ok = "advance by one"
             else:
-                src, _, _ = origins(b, st["rv"]["op"], follow_all_calls=True)
-                calls = {strip_generics(o.what) for o in src if o.kind == "call"}
-                from_pos = any(o.kind == "field" and isinstance(o.what, tuple) and str(o.what[0]).endswith("index::BlockPos") and o.what[1] == "cur_block_idx" for o in src)
-                searched = any(re.search(r"Iterator>?::(find|position|rposition|find_map|rfind)$", c_) for c_ in calls)
-                guess = any(re.search(r"::(checked_sub|saturating_sub|wrapping_sub|last|last_mut)$", c_) for c_ in calls) or "Sub(" in sh
+                from_pos, searched, guess = _idx_value_flags(facts, b, st["rv"]["op"])
+                guess = guess or "Sub(" in sh
                 if searched:
                     ok = "index found by a search over the chain"
                 elif from_pos and not guess:
@@ -481,12 +498,12 @@ def check_position_translation(ctx, facts):
                 elif e[0] == "Add" and fmtfeat_const(e[2]) == 1 and not guess:
                     ok = "advance by one"
             if ok:
-                ctx.ok("C09.3", F, "cur_block_idx := " + ok, b.relfile, site.line)
+                ctx.ok(rid, F, "cur_block_idx := " + ok, b.relfile, site.line)
             else:
-                ctx.violate("C09.3", F, "position-translated-by-place", b.relfile, site.line,
+                ctx.violate(rid, F, "position-translated-by-place", b.relfile, site.line,
                             "the cursor's chain index is set to %s: a persisted position is mapped back to a block by where that block is expected to be in the chain, not by "
                             "finding it; if the writer rotated after the position was persisted the consumer resumes in another block and skips or repeats entries" % sh[:80])
-    ctx.floor("C09.3", "stores to the cursor's chain index", n, 6)
+    ctx.floor(rid, "stores to the cursor's chain index", n, 6)
 
 
 def fmtfeat_const(e):
